@@ -41,7 +41,15 @@ GRIDS = {'g8x4': dict(longitude_wavenumbers=3, total_wavenumbers=4, longitude_no
          'g16x8': dict(longitude_wavenumbers=6, total_wavenumbers=7, longitude_nodes=16, latitude_nodes=8),
          # grids whose first longitude is not 0: the flux must be evaluated at the grid's ACTUAL nodes
          'g12x6o': dict(longitude_wavenumbers=4, total_wavenumbers=5, longitude_nodes=12, latitude_nodes=6, longitude_offset=0.7),
-         'g8x4w': dict(longitude_wavenumbers=3, total_wavenumbers=4, longitude_nodes=8, latitude_nodes=4, longitude_offset=-3.0)}
+         'g8x4w': dict(longitude_wavenumbers=3, total_wavenumbers=4, longitude_nodes=8, latitude_nodes=4, longitude_offset=-3.0),
+         # layout / option variants (self-review items 1, 5, 6)
+         'g8x4r': dict(longitude_wavenumbers=3, total_wavenumbers=4, longitude_nodes=8, latitude_nodes=4, radius=2.5),
+         'g8x6t': dict(longitude_wavenumbers=3, total_wavenumbers=5, longitude_nodes=8, latitude_nodes=6),   # total > longitude + 1
+         'gwide': dict(longitude_wavenumbers=3, total_wavenumbers=4, longitude_nodes=240, latitude_nodes=4, longitude_offset=0.01),
+         'gtall': dict(longitude_wavenumbers=3, total_wavenumbers=4, longitude_nodes=6, latitude_nodes=160),
+         'gequi': dict(longitude_wavenumbers=3, total_wavenumbers=4, longitude_nodes=8, latitude_nodes=5, latitude_spacing='equiangular'),
+         'gpoles': dict(longitude_wavenumbers=3, total_wavenumbers=4, longitude_nodes=8, latitude_nodes=5, latitude_spacing='equiangular_with_poles'),
+         'gfast': dict(longitude_wavenumbers=3, total_wavenumbers=4, longitude_nodes=8, latitude_nodes=4, impl='fast', longitude_offset=1.25)}
 REFS = {'wb': (1979, 1, 1, 0, 0), 'leap_end': (2000, 12, 31, 23, 59), 'feb29': (1980, 2, 29, 12, 30), 'mid': (2015, 7, 4, 6, 7)}
 
 _jax = None
@@ -54,26 +62,58 @@ def J():
                               primitive_equations, scales)
         _jax = dict(jnp=jnp, rad=radiation, hs=held_suarez, sh=spherical_harmonic, cs=coordinate_systems,
                     sc=sigma_coordinates, pe=primitive_equations, units=scales.units,
-                    specs=primitive_equations.PrimitiveEquationsSpecs.from_si())
+                    specs=primitive_equations.PrimitiveEquationsSpecs.from_si(), scales=scales)
     return _jax
+
+
+def specs_of(name='si'):
+    """'si': default specs; 'alt': non-default kappa and a scale whose temperature / mass / time / length units are not 1."""
+    if ('specs', name) not in _cache:
+        j = J(); u = j['units']
+        if name == 'si':
+            _cache['specs', name] = j['specs']
+        else:
+            sc = j['scales'].Scale(1e6 * u.m, 3600 * u.s, 10 * u.kilogram, 2 * u.degK)
+            _cache['specs', name] = j['pe'].PrimitiveEquationsSpecs.from_si(kappa_si=0.3 * u.dimensionless, scale=sc)
+    return _cache['specs', name]
 
 
 _cache = {}
 def grid_of(name):
     if ('grid', name) not in _cache:
         j = J()
-        _cache['grid', name] = getattr(j['sh'].Grid, name)() if name.startswith('T') else j['sh'].Grid(**GRIDS[name])
+        if name.startswith('T'):
+            _cache['grid', name] = getattr(j['sh'].Grid, name)()
+        else:
+            kw = dict(GRIDS[name])
+            if kw.pop('impl', None) == 'fast': kw['spherical_harmonics_impl'] = j['sh'].FastSphericalHarmonics
+            _cache['grid', name] = j['sh'].Grid(**kw)
     return _cache['grid', name]
 
 
-def solar_of(gname, ref, normalized=False):
-    k = ('solar', gname, ref, normalized)
+def grid_nodes(name):
+    """Node coordinates from the grid DEFINITION (not from any object under test): longitudes
+    offset + 2 pi i / n; Gauss / equiangular latitudes from numpy."""
+    if name.startswith('T'):
+        g = grid_of(name); return np.asarray(g.longitudes, dtype=np.float64), np.asarray(g.latitudes, dtype=np.float64)
+    d = GRIDS[name]; nx, ny = d['longitude_nodes'], d['latitude_nodes']
+    lons = d.get('longitude_offset', 0.0) + 2 * np.pi * np.arange(nx) / nx
+    sp = d.get('latitude_spacing', 'gauss')
+    if sp == 'gauss': lats = np.arcsin(np.polynomial.legendre.leggauss(ny)[0])
+    elif sp == 'equiangular': lats = -np.pi / 2 + np.pi * (np.arange(ny) + 0.5) / ny
+    else: lats = np.linspace(-np.pi / 2, np.pi / 2, ny)
+    return lons, lats
+
+
+def solar_of(gname, ref, normalized=False, spec='si', dt64=False):
+    k = ('solar', gname, ref, normalized, spec, dt64)
     if k not in _cache:
         j = J()
         coords = j['cs'].CoordinateSystem(grid_of(gname), j['sc'].SigmaCoordinates.equidistant(2))
         cls = j['rad'].SolarRadiation
         dt = datetime.datetime(*REFS[ref])
-        _cache[k] = (cls.normalized if normalized else cls)(coords, j['specs'], dt)
+        if dt64: dt = np.datetime64(dt)
+        _cache[k] = (cls.normalized if normalized else cls)(coords, specs_of(spec), dt)
     return _cache[k]
 
 
@@ -104,73 +144,116 @@ def generate(ctx):
     rng = ctx.rng
     quick = ctx.tier == 'quick'
     yield 'constants', {}
-    # function level: arbitrary phases (incl. negative, large, exact multiples), points incl. poles
-    n = 10 if quick else 60
+    # function level: arbitrary phases (incl. negative, large, exact multiples, equinox / perihelion), points incl. poles
+    n = 12 if quick else 70
     for i in range(n):
-        kind = i % 5
+        kind = i % 7
         if kind == 0: op, syn = float(rng.uniform(0, 2 * np.pi)), float(rng.uniform(0, 2 * np.pi))
         elif kind == 1: op, syn = float(rng.uniform(-40, 40)), float(rng.uniform(-400, 400))
         elif kind == 2: op, syn = float(2 * np.pi * rng.integers(-3, 4)), float(np.pi * rng.integers(-4, 5))
         elif kind == 3: op, syn = float(rng.uniform(0, 7)), 0.0
-        else: op, syn = float(rng.uniform(-7, 0)), float(rng.uniform(0, 7))
+        elif kind == 4: op, syn = float(rng.uniform(-7, 0)), float(rng.uniform(0, 7))
+        elif kind == 5: op, syn = 79 * 2 * np.pi / 365.25, float(rng.uniform(-7, 7))      # equinox: declination 0, poles on the terminator
+        else: op, syn = 3 * 2 * np.pi / 365.25 + 2 * np.pi * int(rng.integers(-2, 3)), float(rng.uniform(0, 7))   # perihelion
         nl = 5 if quick else 8
         lons = rng.uniform(-np.pi, 3 * np.pi, nl).tolist() + [0.0]
         lats = np.concatenate([rng.uniform(-np.pi / 2, np.pi / 2, nl - 2), [-np.pi / 2, np.pi / 2, 0.0]]).tolist()
         if i % 3 == 0: S, V = 1361.0, 47.0
         elif i % 3 == 1: S, V = float(rng.integers(1, 2000)), float(rng.integers(0, 100)) / 4
         else: S = float(rng.uniform(0.5, 3)); V = float(rng.uniform(0, S))
+        if i % 6 == 5: V = S          # boundary of the admissible range
+        if i % 6 == 4: V = 0.0
         ctx.count(f'flux:phase-kind={kind}')
         yield 'flux', {'op': op, 'syn': syn, 'lons': lons, 'lats': lats, 'S': S, 'V': V,
-                       'n': int(rng.integers(-5, 6)), 'm': int(rng.integers(-400, 401))}
-    # class level
-    gl = ['g8x4', 'g12x6', 'g12x6o', 'g8x4w'] if quick else ['g8x4', 'g12x6', 'g16x8', 'T21', 'g12x6o', 'g8x4w']
+                       'n': int(rng.integers(-5, 6)), 'm': int(rng.integers(-400, 401)),
+                       'peri': float(rng.uniform(-7, 7)), 'forms': i % 4 == 0}
+    # class level: grids (offsets, radius, wide/tall, equiangular with and without poles, fast transform layout),
+    # reference datetimes (none at Jan 1 midnight except 'wb'), datetime64 references, non-default scales
+    if quick:
+        gl = ['g8x4', 'g12x6', 'g12x6o', 'g8x4w', 'gpoles', 'gfast']
+        extra = [('gwide', 1), ('gtall', 1), ('gequi', 1), ('g8x4r', 1)]
+    else:
+        gl = ['g8x4', 'g12x6', 'g16x8', 'T21', 'g12x6o', 'g8x4w', 'gpoles', 'gfast', 'gequi', 'g8x4r', 'g8x6t']
+        extra = [('gwide', 4), ('gtall', 4)]
     refs = list(REFS)
-    for gi, g in enumerate(gl):
-        for r in range(2 if quick else 4):
+    cnt = 0
+    for gi, g in enumerate(gl + [e[0] for e in extra]):
+        nref = dict(extra).get(g, 2 if quick else 4) if g not in gl else (2 if quick else 4)
+        for r in range(nref):
             ref = refs[(gi + r) % len(refs)]
             yield 'reftime', {'ref': ref}
             days = [0.0, float(rng.uniform(-3, 3)), float(365.25 * rng.integers(-3, 4)), float(rng.uniform(-20000, 20000)),
                     float(rng.integers(-3000, 3000)), -float(rng.uniform(0, 1)) / 1440]
-            for d in (days[:4] if quick else days):
-                if g == 'T21' and d != days[1]: continue
+            sel = days[:4] if quick else days
+            if g in dict(extra) or g == 'T21': sel = [days[1 + (r % 3)]]
+            elif quick and r == 1: sel = [days[1], days[3]]
+            for d in sel:
+                cnt += 1
                 ctx.count('solar:grid=' + g)
-                yield 'solar', {'grid': g, 'ref': ref, 'days': d, 'normalized': bool(rng.integers(0, 2))}
+                yield 'solar', {'grid': g, 'ref': ref, 'days': d, 'normalized': bool(rng.integers(0, 2)),
+                                'spec': 'alt' if cnt % 4 == 0 else 'si', 'dt64': cnt % 3 == 0,
+                                'forms': cnt % (3 if quick else 2) == 1,
+                                'other_days': rng.uniform(-500, 500, 3).tolist()}
     # global mean (not proved): quadrature grids
-    for g in (['g12x6', 'T21'] if quick else ['g8x4', 'g12x6', 'g16x8', 'T21', 'T42', 'T85']):
+    for g in (['g12x6', 'T21', 'g8x4r'] if quick else ['g8x4', 'g12x6', 'g16x8', 'T21', 'T42', 'T85', 'g8x4r', 'gequi', 'gfast']):
         for _ in range(3 if quick else 12):
             yield 'globalmean', {'grid': g, 'ref': refs[int(rng.integers(0, len(refs)))], 'days': float(rng.uniform(-20000, 20000))}
     # Held-Suarez
     yield 'hs_defaults', {}
     # coefficients and equilibrium temperature: cheap, many level sets / parameter variants
-    for i in range(4 if quick else 16):
-        g = ['g8x4', 'g12x6', 'g16x8'][i % (2 if quick else 3)]
+    nv = len(HS_VARIANTS)
+    special = [[0.0, 1.0], [0.0, 0.4, 1.0], [0.0, 0.2, 0.4, 1.0]]      # K = 1; centres exactly AT sigma_b = 0.7 (and 0.5 for variant 1)
+    for i in range(nv + len(special) if quick else 4 * nv):
+        g = ['g8x4', 'g12x6', 'g16x8', 'gfast', 'g8x6t'][i % (2 if quick else 5)]
         K = int(rng.integers(2, 9))
         b = util.uneven_boundaries(rng, K).tolist() if i % 2 else np.linspace(0, 1, K + 1).tolist()
-        pv = i % 4
-        base = {'grid': g, 'b': b, 'tref': rng.integers(200, 300, K).astype(float).tolist(), 'pv': pv}
-        ctx.count('hs:grid=' + g); ctx.count(f'hs:K={K}'); ctx.count(f'hs:params={pv}')
+        pv = i % nv
+        if (quick and i >= nv) or (not quick and i % 5 == 4):
+            b = special[i % len(special)]; K = len(b) - 1; pv = [0, 0, 1][i % len(special)]
+        base = {'grid': g, 'b': b, 'tref': rng.integers(200, 300, K).astype(float).tolist(), 'pv': pv,
+                'spec': 'alt' if i % 3 == 2 else 'si'}
+        ctx.count('hs:grid=' + g); ctx.count(f'hs:K={K}'); ctx.count(f'hs:params={pv}'); ctx.count('hs:specs=' + base['spec'])
         yield 'hs_coeffs', base
         nx, ny = GRIDS[g]['longitude_nodes'], GRIDS[g]['latitude_nodes']
-        yield 'hs_teq', dict(base, ps_rel=(rng.integers(40, 120, (nx, ny)) / 100.0).tolist())
+        # surface pressure from 0.4 p0 to 1.6 p0: includes columns with sigma * ps > p0 (log > 0, power > 1)
+        yield 'hs_teq', dict(base, ps_rel=(rng.integers(40, 161, (nx, ny)) / 100.0).tolist(), lead1=bool(i % 2))
     # explicit_terms: exact rational evaluation of the operator chain is expensive (division by
-    # cos^2 gives large denominators), so tiny grids and few levels
+    # cos^2 gives large denominators), so tiny grids and few levels; 'rest' / 'top' states are sparse and cheap
     if quick:
-        plan = [('g8x4', 2, 0, True), ('g8x4', 2, 1, False)]
+        plan = [('g8x4', 2, 0, 'low', 'si'), ('g8x4', 2, 1, 'full', 'si'), ('g8x4', 2, 4, 'top', 'alt'), ('g8x4', 3, 2, 'rest', 'si')]
     else:
-        plan = [('g8x4', 3, pv, low) for pv in range(4) for low in (True, False)] + [('g12x6', 2, 0, True), ('g12x6', 2, 1, False)]
-    for g, K, pv, low in plan:
+        plan = [('g8x4', 3, pv, kind, 'alt' if pv % 2 else 'si') for pv in range(nv) for kind in (('low', 'full') if pv < 4 else ('top', 'low'))]
+        plan += [('g12x6', 2, 0, 'low', 'si'), ('g12x6', 2, 1, 'full', 'si'), ('g8x4r', 2, 4, 'low', 'si'), ('g8x4r', 2, 1, 'top', 'alt'),
+                 ('g8x6t', 2, 0, 'low', 'si'), ('g8x6t', 2, 5, 'top', 'si'), ('g12x6', 3, 3, 'rest', 'si'), ('g8x4', 1, 0, 'full', 'si')]
+    for g, K, pv, kind, spec in plan:
         sb = HS_VARIANTS[pv].get('sigma_b', 0.7)
         # levels on both sides of the boundary layer top
-        inner = np.sort(rng.choice(np.arange(1, 20), size=K - 1, replace=False)) / 20.0
-        b = np.concatenate([[0.0], inner, [1.0]])
-        if not ((b[:-1] + b[1:]) / 2 <= sb).any() or not ((b[:-1] + b[1:]) / 2 > sb).any():
-            b = np.concatenate([[0.0], np.linspace(sb - 0.1, 0.95, K - 1), [1.0]])
-        base = {'grid': g, 'b': b.tolist(), 'tref': rng.integers(200, 300, K).astype(float).tolist(), 'pv': pv}
+        if K == 1:
+            b = np.array([0.0, 1.0])
+        else:
+            inner = np.sort(rng.choice(np.arange(1, 20), size=K - 1, replace=False)) / 20.0
+            b = np.concatenate([[0.0], inner, [1.0]])
+            if not ((b[:-1] + b[1:]) / 2 <= sb).any() or not ((b[:-1] + b[1:]) / 2 > sb).any():
+                b = np.concatenate([[0.0], np.linspace(sb - 0.1, 0.95, K - 1), [1.0]])
+        base = {'grid': g, 'b': b.tolist(), 'tref': rng.integers(200, 300, K).astype(float).tolist(), 'pv': pv, 'spec': spec}
         grid = GRIDS[g]; nx, ny = grid['longitude_nodes'], grid['latitude_nodes']
         M, L = 2 * grid['longitude_wavenumbers'] - 1, grid['total_wavenumbers']
-        st = {f: rng.integers(-16, 17, (K, M, L)).tolist() for f in ('vor', 'div', 'tv')}
-        ctx.count('hs_terms:grid=' + g); ctx.count(f'hs_terms:low={low}')
-        yield 'hs_terms', dict(base, low=low, state=st, lnps_nodal=(rng.integers(-20, 11, (nx, ny)) / 100.0).tolist())
+        if kind == 'rest':
+            st = {f: np.zeros((K, M, L), dtype=int).tolist() for f in ('vor', 'div', 'tv')}
+        elif kind == 'top':
+            # one non-zero coefficient per field and level, at the highest retained total wavenumber
+            st = {}
+            for fi, f in enumerate(('vor', 'div', 'tv')):
+                x = np.zeros((K, M, L), dtype=int)
+                for k in range(K):
+                    x[k, (fi + k) % min(M, 3), L - 1] = int(rng.integers(1, 17)) * (-1) ** k
+                st[f] = x.tolist()
+        else:
+            st = {f: rng.integers(-16, 17, (K, M, L)).tolist() for f in ('vor', 'div', 'tv')}
+        ctx.count('hs_terms:grid=' + g); ctx.count('hs_terms:state=' + kind); ctx.count('hs_terms:specs=' + spec)
+        # log surface pressure perturbation up to +0.5: columns with sigma * ps > p0 in the lowest layer
+        yield 'hs_terms', dict(base, low=(kind == 'low'), kind=kind, state=st,
+                               lnps_nodal=(rng.integers(-20, 51, (nx, ny)) / 100.0).tolist())
 
 
 # ---------------------------------------------------------------------------
@@ -236,6 +319,41 @@ def r_flux(ctx, a):
     ctx.oracle_close('flux periodic in orbital phase', np.asarray(rad.get_radiation_flux(ot2, jnp.asarray(lon2), jnp.asarray(lat2), S, V)), f, scale=(S + V) * big2)
     ctx.oracle_close('flux periodic in daily phase', np.asarray(rad.get_radiation_flux(ot3, jnp.asarray(lon2), jnp.asarray(lat2), S, V)), f, scale=(S + V) * big2)
     ctx.oracle('normalised flux within [0, 1]', bool(np.all((fn >= 0) & (fn <= 1 + eps))), {'min': float(fn.min()), 'max': float(fn.max())})
+    # independent closed forms (numpy) of the instantaneous solar constant, also with a non-default perihelion
+    pe_ = a.get('peri', 0.5)
+    ctx.oracle_close('irradiance = S + V cos(phase - perihelion), non-default perihelion',
+                     [float(rad.get_direct_solar_irradiance(op, S, V, pe_)), float(rad.get_direct_solar_irradiance(op, S, V))],
+                     [S + V * np.cos(op - pe_), S + V * np.cos(op - 3 * 2 * np.pi / 365.25)], scale=(S + V) * big)
+    ctx.oracle_close('flux = irradiance * max(0, sin altitude) (independent solar position)',
+                     f, (S + V * np.cos(op - 3 * 2 * np.pi / 365.25)) * np.maximum(0, s_ref), scale=(S + V) * big, tol_abs=(S + V) * 1e-9 * big)
+    # purity: the same call again is bit-identical
+    f_again = np.asarray(rad.get_radiation_flux(ot, jnp.asarray(lon2), jnp.asarray(lat2), S, V))
+    ctx.oracle('repeated evaluation is bit-identical', bool(np.array_equal(f, f_again)), None)
+    if a.get('forms'):
+        # argument forms: python scalars, 0-d arrays, integer-typed arrays, read-only strided views, default (pint) constants
+        f00 = float(rad.get_radiation_flux(ot, float(lons[0]), float(lats[0]), S, V))
+        ctx.oracle_close('python-scalar longitude/latitude', [f00], [f[0, 0]], scale=(S + V) * big)
+        f0d = float(rad.get_radiation_flux(rad.OrbitalTime(orbital_phase=np.float64(op), synodic_phase=np.asarray(syn)),
+                                           np.asarray(lons[0]), np.asarray(lats[0]), S, V))
+        ctx.oracle_close('0-d array arguments', [f0d], [f[0, 0]], scale=(S + V) * big)
+        ilon = np.arange(-3, 4); ilat = np.array([-1, 0, 1])
+        fi = np.asarray(rad.get_radiation_flux(ot, jnp.asarray(ilon)[:, None], jnp.asarray(ilat)[None, :], int(S) if S == int(S) else S, V))
+        ff = np.asarray(rad.get_radiation_flux(ot, jnp.asarray(ilon.astype(float))[:, None], jnp.asarray(ilat.astype(float))[None, :], S, V))
+        ctx.oracle_close('integer-typed longitudes/latitudes', fi, ff, scale=(S + V) * big)
+        ctx.oracle_close('integer-typed points against the independent solar position', ff,
+                         (S + V * np.cos(op - 3 * 2 * np.pi / 365.25)) * np.maximum(0, _indep_sin_altitude(op, syn, ilon[:, None].astype(float), ilat[None, :].astype(float))),
+                         scale=(S + V) * big, tol_abs=(S + V) * 1e-9 * big)
+        wide = np.zeros((lons.size, 2 * lats.size)); wide[:, ::2] = lat2; wide.setflags(write=False)
+        fv = np.asarray(rad.get_radiation_flux(ot, lon2, wide[:, ::2], S, V))
+        ctx.oracle('read-only strided numpy views give the same flux', bool(np.array_equal(fv, f)), float(np.abs(fv - f).max()))
+        fd = rad.get_radiation_flux(ot, jnp.asarray(lon2), jnp.asarray(lat2))      # default pint constants
+        fdm = np.asarray(getattr(fd, 'magnitude', fd))
+        T2 = Trig()
+        model_flux_tables(ctx, T2, op, syn, lons.tolist(), lats.tolist(), 1361.0, 47.0)
+        m0 = ctx.model.call(0, [], [[], [], [], [], [PI]])
+        ctx.corr('get_radiation_flux with default constants', fdm,
+                 ctx.model.call(5, [], T2.arrs([PI, m0[3], m0[4], op, syn], lons, lats)), scale=1408.0 * big)
+        ctx.oracle('default-constant flux bounded by 1361 + 47', bool(np.all((fdm >= 0) & (fdm <= 1408.0 * (1 + eps)))), float(fdm.max()))
 
 
 def _cal(ref):
@@ -271,9 +389,17 @@ def _solar_case(ctx, sr, t):
     return (ro, rs, ao, as_), (no, ns), m8
 
 
+def _indep_phases(ref, days):
+    """Orbital / daily phase from the calendar alone (Julian year of 365.25 days), not via SolarRadiation."""
+    dt, (diy, full, hh, mm) = _cal(ref)
+    fod = (60 * hh + mm) / 1440.0
+    return 2 * np.pi * (full + fod) / diy + 2 * np.pi * days / 365.25, 2 * np.pi * fod + 2 * np.pi * days
+
+
 def r_solar(ctx, a):
-    j = J(); rad = j['rad']; jnp = j['jnp']; specs = j['specs']; units = j['units']
-    sr = solar_of(a['grid'], a['ref'], a['normalized'])
+    j = J(); rad = j['rad']; jnp = j['jnp']; units = j['units']
+    specs = specs_of(a.get('spec', 'si'))
+    sr = solar_of(a['grid'], a['ref'], a['normalized'], a.get('spec', 'si'), a.get('dt64', False))
     t = float(specs.nondimensionalize(a['days'] * units.day))
     (ro, rs, ao, as_), (no, ns), m8 = _solar_case(ctx, sr, t)
     now = sr.time_to_orbital_time(t)
@@ -282,15 +408,28 @@ def r_solar(ctx, a):
     ctx.exact('floor accepted by the model', [1, 1], [int(m8[4]), int(m8[5])])
     ctx.corr('time_to_orbital_time (mod 2 pi)', _circ([io, is_], [float(m8[2]), float(m8[3])]), m8[2:4], scale=raw_scale)
     ctx.oracle('reduced phases lie in [0, 2 pi]', bool(-1e-9 <= io <= 2 * np.pi + 1e-9 and -1e-9 <= is_ <= 2 * np.pi + 1e-9), [io, is_])
+    # reference phases and rates against the calendar / the Julian year, independently of the object
+    dt, ints = _cal(a['ref'])
+    mref = ctx.model.call(7, ints, [[], [], [], [], [PI]])
+    ctx.corr('SolarRadiation.reference_orbital_time (datetime and datetime64 references)', [ro, rs], mref, scale=2 * np.pi)
+    iop, isyn = _indep_phases(a['ref'], a['days'])
+    ctx.oracle_close('phases follow the calendar: reference + 2 pi days / 365.25, reference + 2 pi days (mod 2 pi)',
+                     _circ([io, is_], [iop, isyn]), [iop, isyn], scale=raw_scale, tol_abs=1e-9 * raw_scale)
     S, V = float(sr.total_solar_irradiance), float(sr.solar_irradiance_variation)
-    # node coordinates are taken from the GRID (not from the SolarRadiation object under test)
-    g_ = grid_of(a['grid'])
-    lons = np.asarray(g_.longitudes, dtype=np.float64); lats = np.asarray(g_.latitudes, dtype=np.float64)
+    w = float(specs.nondimensionalize(1 * units.W / units.meter ** 2))
+    if a['normalized']:
+        ctx.oracle_close('normalised constants are 1361/1408 and 47/1408', [S, V], [1361.0 / 1408.0, 47.0 / 1408.0], scale=1.0)
+    else:
+        ctx.oracle_close('constants are the nondimensionalised 1361 and 47 W/m^2', [S, V], [1361.0 * w, 47.0 * w], scale=1408.0 * w)
+    # node coordinates are taken from the GRID DEFINITION (not from the SolarRadiation object under test)
+    lons, lats = grid_nodes(a['grid'])
     ctx.oracle('SolarRadiation evaluates the flux at the grid nodes (longitude offset included)',
-               bool(np.allclose(np.asarray(sr.lon)[:, 0], lons, rtol=0, atol=1e-12) and np.allclose(np.asarray(sr.lat)[0, :], lats, rtol=0, atol=1e-12)),
+               bool(np.asarray(sr.lon).shape == (lons.size, lats.size) and
+                    np.allclose(np.asarray(sr.lon)[:, 0], lons, rtol=0, atol=1e-12) and np.allclose(np.asarray(sr.lat)[0, :], lats, rtol=0, atol=1e-12)),
                {'sr_lon0': float(np.asarray(sr.lon)[0, 0]), 'grid_lon0': float(lons[0])})
-    if a['grid'].startswith('T'):      # large grid: subsample the model comparison
-        li = np.arange(0, lons.size, 7); lj = np.arange(0, lats.size, 5)
+    if lons.size * lats.size > 200:      # large grid: subsample the model comparison
+        li = np.unique(np.concatenate([np.arange(0, lons.size, max(1, lons.size // 9)), [lons.size - 1]]))
+        lj = np.unique(np.concatenate([np.arange(0, lats.size, max(1, lats.size // 6)), [lats.size - 1]]))
     else:
         li = np.arange(lons.size); lj = np.arange(lats.size)
     T = Trig()
@@ -307,20 +446,46 @@ def r_solar(ctx, a):
     if a['normalized']:
         ctx.oracle('normalised flux within [0, 1]', bool(np.all((f >= 0) & (f <= 1 + eps))), {'max': float(f.max())})
         ctx.oracle_close('normalised constants sum to one', [S + V], [1.0], scale=1.0)
-    s_ref = _indep_sin_altitude(io, is_, np.asarray(sr.lon), np.asarray(sr.lat))
+    # independent solar position: calendar phases, grid-definition coordinates
+    s_ref = _indep_sin_altitude(iop, isyn, lons[:, None], lats[None, :])
+    mg = 1e-6 + 1e-12 * raw_scale
     ctx.oracle('flux exactly zero where the sun is below the horizon (independent solar position)',
-               bool(np.all(f[s_ref < -1e-6] == 0)), {'n_night': int((s_ref < -1e-6).sum())})
+               bool(np.all(f[s_ref < -mg] == 0)), {'n_night': int((s_ref < -mg).sum())})
     ctx.oracle('flux positive where the sun is above the horizon (independent solar position)',
-               bool(np.all(f[s_ref > 1e-6] > 0)), {'n_day': int((s_ref > 1e-6).sum())})
+               bool(np.all(f[s_ref > mg] > 0)), {'n_day': int((s_ref > mg).sum())})
+    S_ind, V_ind = ((1361.0 / 1408.0, 47.0 / 1408.0) if a['normalized'] else (1361.0 * w, 47.0 * w))
+    ctx.oracle_close('flux = irradiance * max(0, sin altitude) (independent solar position and constants)',
+                     f, (S_ind + V_ind * np.cos(iop - 3 * 2 * np.pi / 365.25)) * np.maximum(0, s_ref),
+                     scale=(S_ind + V_ind) * raw_scale, tol_abs=(S_ind + V_ind) * 1e-9 * raw_scale)
     # periodic in model time: 4 Julian years = 1461 days advance both phases by whole turns
     P = float(specs.nondimensionalize(1461 * units.day))
     turns = [ao * P / (2 * np.pi), as_ * P / (2 * np.pi)]
     ctx.oracle_close('1461 days are whole turns of both phases', turns, [4.0, 1461.0], scale=1461.0)
     f2 = np.asarray(sr.radiation_flux(t + P))
     ctx.oracle_close('flux periodic in model time (1461 days)', f2, f, scale=(S + V) * (raw_scale + 1461 * 2 * np.pi))
-    # one day later: same daily phase, orbital phase advanced; flux changes only slowly (sanity of the daily period)
     D = float(specs.nondimensionalize(1 * units.day))
     ctx.oracle_close('one day is one whole turn of the daily phase', [as_ * D / (2 * np.pi)], [1.0], scale=1.0)
+    # purity: evaluation interleaved with another time is bit-identical; the object is not mutated
+    f3 = np.asarray(sr.radiation_flux(t))
+    ctx.oracle('repeated evaluation (interleaved with another time) is bit-identical', bool(np.array_equal(f, f3)), float(np.abs(f - f3).max()))
+    ctx.oracle('evaluation does not change the object', [float(sr.total_solar_irradiance), float(sr.solar_irradiance_variation),
+               float(sr.reference_orbital_time.orbital_phase), float(sr.reference_orbital_time.synodic_phase)] == [S, V, ro, rs], None)
+    if a.get('forms'):
+        import jax
+        # time as numpy scalar / 0-d jax array / python int; jit and vmap over DIFFERENT times
+        ctx.oracle_close('time given as numpy float64 scalar', np.asarray(sr.radiation_flux(np.float64(t))), f, scale=(S + V) * raw_scale)
+        ctx.oracle_close('time given as 0-d jax array', np.asarray(sr.radiation_flux(jnp.asarray(t))), f, scale=(S + V) * raw_scale)
+        ctx.oracle_close('integer time 0 equals float time 0.0', np.asarray(sr.radiation_flux(0)), np.asarray(sr.radiation_flux(0.0)), scale=S + V)
+        ts = np.array([t] + [float(specs.nondimensionalize(d * units.day)) for d in a.get('other_days', [1.5, -2.25])])
+        fb = np.asarray(jax.jit(jax.vmap(sr.radiation_flux))(jnp.asarray(ts)))
+        each = np.stack([np.asarray(sr.radiation_flux(float(x))) for x in ts])
+        ctx.oracle_close('jit(vmap) over different times equals one-by-one evaluation', fb, each,
+                         scale=(S + V) * max(raw_scale, float(np.abs(ts).max() * as_)))
+        # datetime_to_time: days since the reference, nondimensionalised
+        when = dt + datetime.timedelta(days=37, seconds=3600 * 5 + 60 * 17)
+        want = (37 + (3600 * 5 + 60 * 17) / 86400.0) * D
+        ctx.oracle_close('datetime_to_time is the elapsed time since the reference', [float(sr.datetime_to_time(when)), float(sr.datetime_to_time(np.datetime64(when)))],
+                         [want, want], scale=abs(want))
 
 
 def r_globalmean(ctx, a):
@@ -329,9 +494,12 @@ def r_globalmean(ctx, a):
     g = grid_of(a['grid'])
     t = float(specs.nondimensionalize(a['days'] * units.day))
     f = sr.radiation_flux(t)
-    now = sr.time_to_orbital_time(t)
-    irr = float(rad.get_direct_solar_irradiance(now.orbital_phase, sr.total_solar_irradiance, sr.solar_irradiance_variation))
-    mean = float(g.integrate(f)) / (4 * np.pi * g.radius ** 2)
+    # instantaneous solar constant from the calendar phase and 1361 / 47 W/m^2 (independent of the object)
+    iop, _ = _indep_phases(a['ref'], a['days'])
+    w = float(specs.nondimensionalize(1 * units.W / units.meter ** 2))
+    irr = (1361.0 + 47.0 * np.cos(iop - 3 * 2 * np.pi / 365.25)) * w
+    radius = GRIDS.get(a['grid'], {}).get('radius', 1.0) if not a['grid'].startswith('T') else 1.0
+    mean = float(g.integrate(f)) / (4 * np.pi * radius ** 2)
     ny = g.nodal_shape[1]
     tol = 3.0 / ny ** 2
     ctx.count('globalmean:grid=' + a['grid'])
@@ -346,11 +514,16 @@ HS_VARIANTS = {
     1: dict(sigma_b=0.5, kf=('1/day', 2.0), ka=('1/day', 1 / 30), ks=('1/day', 0.5), minT=('degK', 210), maxT=('degK', 300), dTy=('degK', 50), dThz=('degK', 12)),
     2: dict(sigma_b=0.8, ka=('1/day', 0.1), ks=('1/day', 0.1), p0=('pascal', 0.9e5)),
     3: dict(sigma_b=0.65, kf=('1/day', 0.0), ka=('1/day', 0.02), ks=('1/day', 0.3), minT=('degK', 150)),
+    4: dict(sigma_b=0.75, p0=('pascal', 1.1e5), minT=('degK', 180), maxT=('degK', 330), dThz=('degK', 5)),
+    5: dict(kf=('1/day', 1e3), ka=('1/day', 1e-3), ks=('1/day', 1.0), dTy=('degK', 0), maxT=('degK', 260)),   # rates over six decades
+    6: dict(sigma_b=0.3, kf=('1/day', 1e-3), ka=('1/day', 0.5), ks=('1/day', 0.01)),                           # ks < ka (correspondence only)
 }
+HS_DEFAULTS = dict(p0=('pascal', 1e5), sigma_b=0.7, kf=('1/day', 1.0), ka=('1/day', 1 / 40), ks=('1/day', 1 / 4),
+                   minT=('degK', 200), maxT=('degK', 315), dTy=('degK', 60), dThz=('degK', 10))
 
 
-def hs_of(gname, b, tref, pv):
-    k = ('hs', gname, tuple(b), tuple(tref), pv)
+def hs_of(gname, b, tref, pv, spec='si'):
+    k = ('hs', gname, tuple(b), tuple(tref), pv, spec)
     if k not in _cache:
         j = J(); u = j['units']
         coords = j['cs'].CoordinateSystem(grid_of(gname), j['sc'].SigmaCoordinates(np.asarray(b, dtype=np.float64)))
@@ -361,8 +534,30 @@ def hs_of(gname, b, tref, pv):
                 kw[name] = {'1/day': mag / u.day, 'degK': mag * u.degK, 'pascal': mag * u.pascal}[unit]
             else:
                 kw[name] = v
-        _cache[k] = (j['hs'].HeldSuarezForcing(coords, j['specs'], np.asarray(tref, dtype=np.float64), **kw), coords)
+        _cache[k] = (j['hs'].HeldSuarezForcing(coords, specs_of(spec), np.asarray(tref, dtype=np.float64), **kw), coords)
     return _cache[k]
+
+
+def hs_params_indep(pv, spec):
+    """The nondimensional parameters from the constructor arguments and the unit scale (not from the object)."""
+    j = J(); u = j['units']; sp = specs_of(spec)
+    unit = {'1/day': float(sp.nondimensionalize(1 / u.day)), 'degK': float(sp.nondimensionalize(1 * u.degK)),
+            'pascal': float(sp.nondimensionalize(1 * u.pascal))}
+    d = dict(HS_DEFAULTS); d.update(HS_VARIANTS[pv])
+    return [(v[1] * unit[v[0]] if isinstance(v, tuple) else float(v)) for v in (d[n] for n in ('p0', 'sigma_b', 'kf', 'ka', 'ks', 'minT', 'maxT', 'dTy', 'dThz'))]
+
+
+def hs_indep(P, sig, lat, ps, kappa):
+    """numpy transcription of Held & Suarez (1994): kv (K,), kt (K,1,Y) and Teq (K,X,Y)."""
+    p0, sb, kf, ka, ks, minT, maxT, dTy, dThz = P
+    cut = np.maximum(0.0, (sig - sb) / (1 - sb))
+    kv = kf * cut
+    kt = ka + (ks - ka) * cut[:, None, None] * np.cos(lat)[None, None, :] ** 4
+    teq = None
+    if ps is not None:
+        pp = sig[:, None, None] * ps[None] / p0
+        teq = np.maximum(minT, pp ** kappa * (maxT - dTy * np.sin(lat)[None, None, :] ** 2 - dThz * np.log(pp) * np.cos(lat)[None, None, :] ** 2))
+    return kv, kt, teq
 
 
 def hs_params(F):
@@ -407,29 +602,40 @@ def r_hs_defaults(ctx, a):
 
 
 def r_hs_coeffs(ctx, a):
-    F, coords = hs_of(a['grid'], a['b'], a['tref'], a['pv'])
+    spec = a.get('spec', 'si')
+    F, coords = hs_of(a['grid'], a['b'], a['tref'], a['pv'], spec)
     P = hs_params(F); sig = np.asarray(F.sigma)
+    Pi = hs_params_indep(a['pv'], spec)
+    Pa, Pia = np.asarray(P), np.asarray(Pi)
+    ctx.oracle_close('parameters are the nondimensionalised constructor arguments',
+                     np.where(Pia != 0, Pa / np.where(Pia != 0, Pia, 1.0), 1.0 + Pa), np.ones(Pa.size), scale=1.0)
+    bb = np.asarray(a['b'], dtype=np.float64); sig_i = (bb[1:] + bb[:-1]) / 2
+    _, lat_i = grid_nodes(a['grid'])
+    ctx.oracle_close('levels and latitudes of the forcing are those of the coordinates', np.concatenate([sig, np.asarray(F.lat)[0, :]]),
+                     np.concatenate([sig_i, lat_i]), scale=1.0)
     kv = np.asarray(F.kv()); kt = np.asarray(F.kt())
     K = sig.size
     ctx.exact('kv shape', list(kv.shape), [K, 1, 1]); ctx.exact('kt shape', list(kt.shape), list(coords.nodal_shape))
     ctx.corr('HeldSuarezForcing.kv', kv.ravel(), ctx.model.call(20, [], [P, sig]), scale=abs(P[2]) + 1e-300)
-    lat = np.asarray(F.lat)
-    cl = np.cos(lat[0, :])
+    cl = np.cos(lat_i)
     ctx.corr('HeldSuarezForcing.kt', kt[:, 0, :], ctx.model.call(21, [], [P, sig, cl]), scale=max(abs(P[3]), abs(P[4])))
     ctx.oracle_close('kt independent of longitude', kt, np.broadcast_to(kt[:, :1, :], kt.shape), scale=abs(P[4]) + abs(P[3]))
-    # ---- clauses
-    sb, kf, ka, ks = P[1], P[2], P[3], P[4]
+    # ---- clauses, against an independent numpy transcription with independent parameters / coordinates
+    kv_i, kt_i, _ = hs_indep(Pi, sig_i, lat_i, None, 0.0)
+    ctx.oracle_close('friction rate = kf max(0, (sigma - sigma_b)/(1 - sigma_b)) (independent)', kv.ravel(), kv_i, scale=abs(Pi[2]) + 1e-300)
+    ctx.oracle_close('relaxation rate = ka + (ks - ka) max(0, .) cos^4(lat) (independent)', kt, np.broadcast_to(kt_i, kt.shape), scale=max(abs(Pi[3]), abs(Pi[4])))
+    sb, kf, ka, ks = Pi[1], Pi[2], Pi[3], Pi[4]
     ctx.oracle('friction rate non-negative', bool(np.all(kv >= 0)), kv.ravel())
-    ctx.oracle('friction rate exactly zero above the boundary layer', bool(np.all(kv.ravel()[sig <= sb] == 0)), {'kv': kv.ravel(), 'sigma': sig, 'sigma_b': sb})
+    ctx.oracle('friction rate exactly zero above the boundary layer', bool(np.all(kv.ravel()[sig_i <= sb] == 0)), {'kv': kv.ravel(), 'sigma': sig_i, 'sigma_b': sb})
     if kf > 0:
-        ctx.oracle('friction rate positive inside the boundary layer', bool(np.all(kv.ravel()[sig > sb + 1e-12] > 0)), kv.ravel())
-        ctx.oracle_close('friction rate linear in sigma inside the boundary layer',
-                         kv.ravel()[sig > sb], kf * (sig[sig > sb] - sb) / (1 - sb), scale=kf)
-    ctx.count('hs:levels-above-bl', int((sig <= sb).sum())); ctx.count('hs:levels-in-bl', int((sig > sb).sum()))
+        ctx.oracle('friction rate positive inside the boundary layer', bool(np.all(kv.ravel()[sig_i > sb + 1e-12] > 0)), kv.ravel())
+    ctx.count('hs:levels-above-bl', int((sig_i < sb).sum())); ctx.count('hs:levels-in-bl', int((sig_i > sb).sum())); ctx.count('hs:levels-at-bl-top', int((sig_i == sb).sum()))
     if ks >= ka:
         eps = 2.0 ** -40
         ctx.oracle('relaxation rate at least ka (positive)', bool(np.all(kt >= ka * (1 - eps))) and ka > 0, {'min': float(kt.min()), 'ka': ka})
         ctx.oracle('relaxation rate at most ks', bool(np.all(kt <= ks * (1 + eps))), {'max': float(kt.max()), 'ks': ks})
+    # purity: coefficients do not change between calls and the object keeps its parameters
+    ctx.oracle('kv / kt repeatable and parameters unchanged', bool(np.array_equal(kv, np.asarray(F.kv())) and np.array_equal(kt, np.asarray(F.kt())) and hs_params(F) == P), None)
 
 
 def _teq_model(ctx, F, P, sig_list, ps_flat, cosl, sinl, kappa):
@@ -447,29 +653,45 @@ def _teq_model(ctx, F, P, sig_list, ps_flat, cosl, sinl, kappa):
 
 def r_hs_teq(ctx, a):
     j = J(); jnp = j['jnp']
-    F, coords = hs_of(a['grid'], a['b'], a['tref'], a['pv'])
-    G = grid_mats(a['grid'])
+    spec = a.get('spec', 'si')
+    F, coords = hs_of(a['grid'], a['b'], a['tref'], a['pv'], spec)
+    lon_i, lat_i = grid_nodes(a['grid'])
+    X, Y = lon_i.size, lat_i.size
+    cosl = np.broadcast_to(np.cos(lat_i), (X, Y)).ravel(); sinl = np.broadcast_to(np.sin(lat_i), (X, Y)).ravel()
     P = hs_params(F); sig = np.asarray(F.sigma); K = sig.size
+    Pi = hs_params_indep(a['pv'], spec)
     ps = np.asarray(a['ps_rel'], dtype=np.float64) * P[0]
-    teq = np.asarray(F.equilibrium_temperature(jnp.asarray(ps)))
-    kappa = float(j['specs'].kappa)
-    m, p, pk, lg = _teq_model(ctx, F, P, sig, ps.ravel(), G['cosl'], G['sinl'], kappa)
+    ps_in = ps[None] if a.get('lead1') else ps            # (1, X, Y) and (X, Y) forms
+    teq = np.asarray(F.equilibrium_temperature(jnp.asarray(ps_in)))
+    ctx.exact('equilibrium_temperature shape', list(teq.shape), [K, X, Y])
+    kappa = float(specs_of(spec).kappa)
+    ctx.oracle_close('kappa of the specs is used', [kappa], [0.3 if spec == 'alt' else 2 / 7], scale=1.0)
+    m, p, pk, lg = _teq_model(ctx, F, P, sig, ps.ravel(), cosl, sinl, kappa)
     p_impl = (sig[:, None, None] * ps / P[0]).reshape(-1)
-    ctx.corr('p_over_p0', p_impl, p, scale=1.0)
-    scale = abs(P[6]) + abs(P[7]) + abs(P[8]) * max(1.0, float(np.abs(lg).max()))
+    ctx.corr('p_over_p0', p_impl, p, scale=float(np.abs(p_impl).max()))
+    scale = (abs(P[6]) + abs(P[7]) + abs(P[8]) * max(1.0, float(np.abs(lg).max()))) * max(1.0, float(pk.max()))
     for k in range(K):
         ctx.corr('equilibrium_temperature', teq[k].ravel(), m[k], scale=scale)
-    ctx.oracle('equilibrium temperature bounded below by its floor', bool(np.all(teq >= P[5])), {'min': float(teq.min()), 'minT': P[5]})
+    # independent numpy transcription with independent parameters, levels and latitudes
+    bb = np.asarray(a['b'], dtype=np.float64); sig_i = (bb[1:] + bb[:-1]) / 2
+    _, _, teq_i = hs_indep(Pi, sig_i, lat_i, np.asarray(a['ps_rel'], dtype=np.float64) * Pi[0], 0.3 if spec == 'alt' else 2 / 7)
+    ctx.oracle_close('equilibrium temperature = max(minT, (p/p0)^kappa (maxT - dTy sin^2 - dThz log(p/p0) cos^2)) (independent)', teq, teq_i, scale=scale)
+    ctx.oracle('equilibrium temperature bounded below by its floor', bool(np.all(teq >= Pi[5])), {'min': float(teq.min()), 'minT': Pi[5]})
     ctx.count('hs:teq-at-floor', int((teq == P[5]).sum())); ctx.count('hs:teq-above-floor', int((teq > P[5]).sum()))
+    ctx.count('hs:columns-with-p-above-p0', int((p_impl > 1).sum()))
+    teq2 = np.asarray(F.equilibrium_temperature(jnp.asarray(ps_in)))
+    ctx.oracle('equilibrium temperature repeatable', bool(np.array_equal(teq, teq2)), None)
 
 
 def r_hs_terms(ctx, a):
     j = J(); jnp = j['jnp']; pe = j['pe']
-    F, coords = hs_of(a['grid'], a['b'], a['tref'], a['pv'])
+    spec = a.get('spec', 'si')
+    F, coords = hs_of(a['grid'], a['b'], a['tref'], a['pv'], spec)
     G = grid_mats(a['grid']); g = grid_of(a['grid'])
     nm, nn = G['nm'], G['nn']
     P = hs_params(F); sig = np.asarray(F.sigma); K = sig.size
-    kappa = float(j['specs'].kappa)
+    Pi = hs_params_indep(a['pv'], spec)
+    kappa = float(specs_of(spec).kappa)
     mask = G['mask']
     M, L = mask.shape
     lowmask = G['low'].reshape(M, L)
@@ -499,7 +721,10 @@ def r_hs_terms(ctx, a):
     ln_m = ctx.model.call(24, [nm, nn], [[], G['toN'].ravel(), lnps.ravel()])
     ps = np.exp(np.array([float(v) for v in ln_m]))
     teq_m, p, pk, lg = _teq_model(ctx, F, P, sig, ps, G['cosl'], G['sinl'], kappa)
-    kv = np.asarray(F.kv()).ravel()
+    # reference friction rate: independent numpy transcription (not F.kv())
+    bb = np.asarray(a['b'], dtype=np.float64); sig_i = (bb[1:] + bb[:-1]) / 2
+    _, lat_i = grid_nodes(a['grid'])
+    kv, kt_i, _ = hs_indep(Pi, sig_i, lat_i, None, 0.0)
     kt_max = max(abs(P[3]), abs(P[4]))
     mats = [G[n].ravel() for n in ('toN', 'toM', 'CUv', 'CUd', 'CVv', 'CVd', 'CRu', 'CRv', 'DVu', 'DVv')]
     wind_scale = float(np.abs(G['CRu']).sum(axis=1).max() + np.abs(G['CRv']).sum(axis=1).max()) * \
@@ -511,14 +736,14 @@ def r_hs_terms(ctx, a):
         vs = max(abs(P[2]), 1e-300) * wind_scale * max(1.0, float(np.abs(st['vor'][k]).max()), float(np.abs(st['div'][k]).max()))
         ctx.corr('explicit_terms.vorticity', o['vor'][k].ravel(), m[:nm], scale=vs)
         ctx.corr('explicit_terms.divergence', o['div'][k].ravel(), m[nm:2 * nm], scale=vs)
-        ts = kt_max * (abs(a['tref'][k]) + abs(P[6]) + abs(P[7])) * float(np.abs(G['toM']).sum(axis=1).max())
+        ts = kt_max * (abs(a['tref'][k]) + abs(P[6]) + abs(P[7])) * float(np.abs(G['toM']).sum(axis=1).max()) * max(1.0, float(pk.max()))
         ctx.corr('explicit_terms.temperature_variation', o['tv'][k].ravel(), m[2 * nm:3 * nm], scale=ts)
     ctx.exact('explicit_terms.log_surface_pressure identically zero', o['lnps'].ravel().tolist(), [0.0] * o['lnps'].size)
     # ---- clauses on the implementation
     ctx.exact('log surface pressure tendency has the state shape', list(o['lnps'].shape), list(lnps.shape))
     ctx.oracle('no surface-pressure tendency', bool(np.all(o['lnps'] == 0)), {'max': float(np.abs(o['lnps']).max())})
-    sb = P[1]
-    above = sig <= sb
+    sb = Pi[1]
+    above = sig_i <= sb
     ctx.oracle('no drag above the boundary layer', bool(np.all(o['vor'][above] == 0) and np.all(o['div'][above] == 0)),
                {'max': float(max(np.abs(o['vor'][above]).max(initial=0), np.abs(o['div'][above]).max(initial=0)))})
     if a['low']:
@@ -534,19 +759,33 @@ def r_hs_terms(ctx, a):
         o2 = F.explicit_terms(st2); o3 = F.explicit_terms(st3)
         s = max(abs(P[2]), 1e-300) * max(1.0, float(np.abs(st['vor']).max()), float(np.abs(st['div']).max())) * wind_scale
         ctx.oracle_close('drag is linear in the wind', np.asarray(o2.vorticity), 2 * o['vor'] - 5 * np.asarray(o3.vorticity), scale=5 * s)
-    # temperature: to_modal(-kt (T - Teq)) with independent numpy kt / Teq
-    lat = np.asarray(F.lat)
-    cut = np.maximum(0, (sig - sb) / (1 - sb))[:, None, None]
-    kt = P[3] + (P[4] - P[3]) * cut * np.cos(lat) ** 4
+    if a.get('kind') == 'rest':
+        ctx.oracle('a state at rest feels no drag (exact zeros)', bool(np.all(o['vor'] == 0) and np.all(o['div'] == 0)), None)
+    if a.get('kind') == 'top':
+        # a single coefficient at the highest retained total wavenumber: the drag must stay linear and bounded by kv |coefficient| * round-trip norm
+        st2 = pe.State(vorticity=jnp.asarray(-4 * st['vor']), divergence=jnp.asarray(-4 * st['div']),
+                       temperature_variation=state.temperature_variation, log_surface_pressure=state.log_surface_pressure)
+        o2 = F.explicit_terms(st2)
+        s2 = max(abs(P[2]), 1e-300) * 4 * max(1.0, float(np.abs(st['vor']).max()), float(np.abs(st['div']).max())) * wind_scale
+        ctx.oracle_close('drag is linear in the wind (top wavenumber)', np.asarray(o2.vorticity), -4 * o['vor'], scale=s2)
+        ctx.oracle_close('drag is linear in the wind (top wavenumber, divergence)', np.asarray(o2.divergence), -4 * o['div'], scale=s2)
+    # temperature: to_modal(-kt (T - Teq)) with independent numpy kt / Teq / parameters / coordinates
     X, Y = g.nodal_shape
     psn = ps.reshape(X, Y)
-    pp = sig[:, None, None] * psn / P[0]
-    teq = np.maximum(P[5], pp ** kappa * (P[6] - P[7] * np.sin(lat) ** 2 - P[8] * np.log(pp) * np.cos(lat) ** 2))
+    _, kt, teq = hs_indep(Pi, sig_i, lat_i, psn * (Pi[0] / P[0]), 0.3 if spec == 'alt' else 2 / 7)
     Tn = np.asarray(a['tref'])[:, None, None] + np.asarray(g.to_nodal(jnp.asarray(st['tv'])))
     want = np.asarray(g.to_modal(jnp.asarray(-kt * (Tn - teq))))
-    ts = kt_max * (float(np.abs(Tn).max()) + abs(P[6]) + abs(P[7])) * float(np.abs(G['toM']).sum(axis=1).max())
+    ts = kt_max * (float(np.abs(Tn).max()) + abs(P[6]) + abs(P[7])) * float(np.abs(G['toM']).sum(axis=1).max()) * max(1.0, float(pk.max()))
     ctx.oracle_close('temperature tendency = relaxation toward the equilibrium temperature', o['tv'], want, scale=ts)
-    ctx.oracle('relaxation opposes the departure from equilibrium (rates non-negative)', bool(np.all(kt >= 0)) if P[4] >= P[3] >= 0 else True, float(kt.min()))
+    ctx.oracle('relaxation opposes the departure from equilibrium (rates non-negative)', bool(np.all(kt >= 0)) if Pi[4] >= Pi[3] >= 0 else True, float(kt.min()))
+    ctx.count('hs_terms:columns-with-p-above-p0', int((np.array([float(v) for v in p]) > 1).sum()))
+    # purity: evaluate another forcing on the same coordinates in between, then the same state again
+    other = hs_of(a['grid'], a['b'], a['tref'], (a['pv'] + 1) % len(HS_VARIANTS), spec)[0]
+    other.explicit_terms(state)
+    out2 = F.explicit_terms(state)
+    same = all(np.array_equal(np.asarray(getattr(out, n)), np.asarray(getattr(out2, n)))
+               for n in ('vorticity', 'divergence', 'temperature_variation', 'log_surface_pressure'))
+    ctx.oracle('explicit_terms repeatable after evaluating another forcing; parameters unchanged', same and hs_params(F) == P, None)
 
 
 RUNNERS = {'constants': r_constants, 'flux': r_flux, 'reftime': r_reftime, 'solar': r_solar, 'globalmean': r_globalmean,
